@@ -51,3 +51,11 @@ func verifLemmaRoundTripDATA(p *chunkPayloadData) (q *chunkPayloadData, err erro
 
 	return q, err
 }
+
+// A HEARTBEAT built by the association and encoded through the chunk interface (the path packet.marshal
+// takes) carries its Heartbeat-Info parameter.
+func verifLemmaHeartbeatCarriesInfo(info *paramHeartbeatInfo) (out []byte, err error) {
+	var c chunk = &chunkHeartbeat{params: []param{info}}
+
+	return c.marshal()
+}
